@@ -60,6 +60,7 @@ const char* const L_TCH[P_N] = {"touch:ascending", "touch:descending", "touch:zi
 //! the order in which the m positions 0..m-1 of a window are visited (m steps)
 std::vector<size_t> pattern(unsigned pat, size_t m, size_t block, Rng& rng) {
     std::vector<size_t> o;
+    if (m == 0) return o;
     o.reserve(m);
     switch (pat) {
     case P_ASC:
